@@ -284,9 +284,10 @@ def nested_source(bs, layout, rng, half=False, seed0=0, deep=True):
     return src
 
 
-def to_td(src, bs):
+def to_td(src, bs, device=None):
+    """device="cpu" selects the code paths taken when the tensordict has a device (e.g. _clone_recurse)"""
     TD = T()["TD"]
-    return TD({k: (to_td(v, bs) if isinstance(v, dict) else v) for k, v in src.items()}, batch_size=list(bs))
+    return TD({k: (to_td(v, bs, device) if isinstance(v, dict) else v) for k, v in src.items()}, batch_size=list(bs), device=device)
 
 
 class Fx:
@@ -313,13 +314,14 @@ def build_fixture(spec):
     if layout == "zerobatch":
         bs = [0] + bs[1:] if bs else bs
     fx = Fx(spec)
+    dev = "cpu" if spec["v"] % 2 == 1 else None
     if kind == "regular":
-        fx.td = to_td(nested_source(bs, layout, rng, half, deep=False), bs)
+        fx.td = to_td(nested_source(bs, layout, rng, half, deep=False), bs, dev)
     elif kind == "nested":
-        fx.td = to_td(nested_source(bs, layout, rng, half), bs)
+        fx.td = to_td(nested_source(bs, layout, rng, half), bs, dev)
     elif kind == "tensorclass":
         src = nested_source(bs, layout, rng, half)
-        fx.td = t["TC"](a=src["a"], b=src["b"], n=to_td(src["n"], bs), batch_size=bs)
+        fx.td = t["TC"](a=src["a"], b=src["b"], n=to_td(src["n"], bs, dev), batch_size=bs, device=dev)
     elif kind == "lazy":
         sd = spec["v"] % (len(bs)) if bs else 0
         if not bs:
@@ -328,13 +330,13 @@ def build_fixture(spec):
         mbs = bs[:sd] + bs[sd + 1:]
         if nm == 0:
             nm, bs = 2, bs[:sd] + [2] + bs[sd + 1:]
-        members = [to_td(nested_source(mbs, layout, rng, half, seed0=5 * i), mbs) for i in range(nm)]
+        members = [to_td(nested_source(mbs, layout, rng, half, seed0=5 * i), mbs, dev) for i in range(nm)]
         fx.td = t["lazy_stack"](members, sd)
         fx.extra_handles = members
     elif kind == "sub":
         # the source has one more row than the window; windows: int / slice / (slice, int) / integer list / mask
         pbs = [bs[0] + 2] + bs[1:] if bs else [3]
-        parent = to_td(nested_source(pbs, layout, rng, half), pbs)
+        parent = to_td(nested_source(pbs, layout, rng, half), pbs, dev)
         form = ["slice", "int", "list", "mask", "tuple"][spec["v"] % 5]
         torch = t["torch"]
         if form == "slice":
@@ -356,7 +358,7 @@ def build_fixture(spec):
         fx.extra_handles = [parent]
         fx.sub_form = form
     elif kind in ("memmap", "shared"):
-        td = to_td(nested_source(bs, layout, rng, half), bs)
+        td = to_td(nested_source(bs, layout, rng, half), bs, dev)
         if kind == "memmap":
             d = tempfile.mkdtemp(prefix="c07-")
             fx.tmp.append(d)
@@ -1593,10 +1595,10 @@ SKIPPED = {
     "python object protocol": ["__class__", "__class_getitem__", "__delattr__", "__dir__", "__format__", "__getattribute__", "__init__",
                                "__init_subclass__", "__new__", "__reduce_ex__", "__setattr__", "__setstate__", "__sizeof__", "__str__",
                                "__subclasshook__", "__torch_function__", "__bool__", "__rpow__", "__rtruediv__", "__getitems__",
-                               "clear", "popitem", "separates", "unlock_", "rename", "refine_names", "is_meta", "saved_path",
-                               "sqrt", "sqrt_", "copy_at_", "expand_as", "new_ones", "new_empty", "pop", "__delitem__",
-                               "items", "detach", "cummin", "unflatten_keys", "stack_tensors", "int", "int64", "half", "bool",
-                               "float", "float32", "bfloat16", "double", "float64", "cpu"],
+                               "__abstractmethods__", "__annotations__", "__dict__", "__doc__", "__hash__", "__module__", "__slots__",
+                               "__weakref__", "__getstate__", "__reduce__", "__repr__", "__len__", "__contains__"],
+    "needs state this harness does not build (key lists with semantics of their own, nested-tensor entries, saved paths)": [
+        "clear", "popitem", "separates", "is_meta", "saved_path", "to_padded_tensor", "densify", "to_struct_array", "logsumexp"],
 }
 
 
